@@ -1,0 +1,51 @@
+//go:build verif
+
+package value
+
+import (
+	"math"
+	"os"
+	"time"
+)
+
+// Verification hook (build tag "verif" only; see /verif, property C14).
+//
+// While VerifPoison is true, Discard does not return the object to its pool. It overwrites the
+// object with a recognisable marker instead, so that any later read through a pointer that is
+// still held somewhere becomes visible in the output. VerifPoison is false unless the process was
+// started with CSVQ_VERIF_POISON=1, so other "verif" builds behave like normal builds.
+var VerifPoison = os.Getenv("CSVQ_VERIF_POISON") == "1"
+
+const (
+	VerifPoisonString    = "\x00DISCARDED"
+	VerifPoisonInteger   = math.MinInt64 + 1
+	VerifPoisonFloatBits = 0x7ff8dead0000c0de // a quiet NaN with a payload
+)
+
+func verifPoison(p Primary) bool {
+	if !VerifPoison || p == nil {
+		return false
+	}
+	switch v := p.(type) {
+	case *String:
+		if v.literal == VerifPoisonString {
+			panic("verif: value.Discard called twice on the same String")
+		}
+		v.literal = VerifPoisonString
+	case *Integer:
+		if v.value == VerifPoisonInteger {
+			panic("verif: value.Discard called twice on the same Integer")
+		}
+		v.value = VerifPoisonInteger
+	case *Float:
+		if math.Float64bits(v.value) == VerifPoisonFloatBits {
+			panic("verif: value.Discard called twice on the same Float")
+		}
+		v.value = math.Float64frombits(VerifPoisonFloatBits)
+	case *Datetime:
+		v.value = time.Time{}
+	default:
+		return false // Boolean, Ternary, Null are shared singletons: Discard ignores them
+	}
+	return true
+}
